@@ -396,3 +396,60 @@ func genC13ErrorText() string {
 	b.WriteString("end Scrapli.Gen.C13ErrorText\n")
 	return b.String()
 }
+
+// C13 from-file variants: how util.LoadFileLines (util/file.go) reads the file. The model
+// (ScrapliModel/FileLines.lean) is bufio.Scanner + bufio.ScanLines with the default buffer; any
+// other way of reading (ReadLine, ReadString, ReadBytes, ReadAll, a custom split function, a
+// resized buffer) has different line semantics and must be re-modelled.
+func init() { extraGenerators["C13FileLines.lean"] = genC13FileLines }
+
+func genC13FileLines() string {
+	found, usesScanner, setsBuffer, appendsText := false, false, false, false
+	split := "default"
+	var others []string
+	fset := token.NewFileSet()
+	f, err := parserParse(fset, filepath.Join(*repo, "util", "file.go"))
+	if err == nil {
+		for _, d := range f.Decls {
+			fd, ok := d.(*ast.FuncDecl)
+			if !ok || fd.Recv != nil || fd.Name.Name != "LoadFileLines" || fd.Body == nil {
+				continue
+			}
+			found = true
+			ast.Inspect(fd.Body, func(n ast.Node) bool {
+				c, ok := n.(*ast.CallExpr)
+				if !ok {
+					return true
+				}
+				if isSel(c.Fun, "bufio", "NewScanner") {
+					usesScanner = true
+				}
+				if isSel(c.Fun, "bufio", "NewReader") || isSel(c.Fun, "bufio", "NewReaderSize") || isSel(c.Fun, "io", "ReadAll") ||
+					isSel(c.Fun, "os", "ReadFile") || isSel(c.Fun, "ioutil", "ReadAll") || isSel(c.Fun, "ioutil", "ReadFile") {
+					others = append(others, c13ExprStr(c.Fun, ""))
+				}
+				if s, ok := c.Fun.(*ast.SelectorExpr); ok {
+					switch s.Sel.Name {
+					case "ReadLine", "ReadString", "ReadBytes", "ReadSlice", "ReadRune", "ReadByte":
+						others = append(others, s.Sel.Name)
+					case "Buffer":
+						setsBuffer = true
+					case "Split":
+						if len(c.Args) == 1 {
+							split = c13ExprStr(c.Args[0], "")
+						}
+					case "Text":
+						appendsText = true
+					}
+				}
+				return true
+			})
+		}
+	}
+	var b strings.Builder
+	b.WriteString("-- GENERATED by go/cmd/extract (gen_c13.go) from /repo's working tree; do not edit.\n")
+	b.WriteString("/-! How `util.LoadFileLines` (`util/file.go`) reads the file. -/\nnamespace Scrapli.Gen.C13FileLines\n\n")
+	fmt.Fprintf(&b, "def found : Bool := %v\ndef usesScanner : Bool := %v\n/-- argument of `scanner.Split` (`default` = not called: bufio.ScanLines) -/\ndef splitFunc : String := %q\n", found, usesScanner, split)
+	fmt.Fprintf(&b, "/-- other ways of reading that occur in the body -/\ndef otherReaders : List String := %s\ndef setsBuffer : Bool := %v\ndef appendsScannerText : Bool := %v\n\nend Scrapli.Gen.C13FileLines\n", leanStrs(others), setsBuffer, appendsText)
+	return b.String()
+}
